@@ -79,26 +79,42 @@ LocalSetRacingClose(ch, v, c) ==
   /\ last' = <<"LocalRace", c, ch, v>>
 RemoteWrite(c, ch, v) == c \in open /\ Update(ch, v, c, "Remote")
 
+\* one PUT entry carrying a value AND ev (hap/http/characteristics.go:128-150: the value is written first, then the
+\* subscription changes); sub = TRUE subscribes, FALSE unsubscribes
+RemoteWriteEv(c, ch, v, sub) ==
+  /\ c \in open
+  /\ LET changed == v # val[ch] \/ ~Guard("no_event_on_same_value")
+         tg == IF changed THEN Targets(ch, c) ELSE {} IN
+     /\ val' = [val EXCEPT ![ch] = v]
+     /\ got' = [x \in Conn |-> IF x \in tg THEN {<<ch, v>>} ELSE {}]
+     /\ dup' = (tg # {} /\ ~Guard("notified_once"))
+     /\ appPanic' = FALSE
+  /\ subs' = IF sub THEN (IF ch \in Evented \/ ~Guard("subscribe_requires_ev_perm") THEN subs \cup {<<c, ch>>} ELSE subs)
+             ELSE (IF Guard("unsubscribe_clears") THEN subs \ {<<c, ch>>} ELSE subs)
+  /\ last' = <<IF sub THEN "RemoteSub" ELSE "RemoteUnsub", c, ch, v>> /\ UNCHANGED open
+
 Next == \/ \E c \in Conn : Connect(c) \/ Close(c)
         \/ \E c \in Conn, ch \in Char : Subscribe(c, ch) \/ Unsubscribe(c, ch)
         \/ \E ch \in Char, v \in Vals : LocalSet(ch, v) \/ \E c \in Conn : RemoteWrite(c, ch, v) \/ LocalSetRacingClose(ch, v, c)
+        \/ \E ch \in Char, v \in Vals, c \in Conn, sub \in BOOLEAN : RemoteWriteEv(c, ch, v, sub)
 Spec == Init /\ [][Next]_vars
 
 \* ---- the property, phrased on observables only: `want` is the monitor's ghost (what each open connection asked for)
 VARIABLE want
 GInit == Init /\ want = {}
-WantNext == want' = CASE last'[1] = "Sub" /\ last'[3] \in Evented -> want \cup {<<last'[2], last'[3]>>}
-                      [] last'[1] = "Unsub" -> want \ {<<last'[2], last'[3]>>}
+WantNext == want' = CASE last'[1] \in {"Sub", "RemoteSub"} /\ last'[3] \in Evented -> want \cup {<<last'[2], last'[3]>>}
+                      [] last'[1] \in {"Unsub", "RemoteUnsub"} -> want \ {<<last'[2], last'[3]>>}
                       [] last'[1] \in {"Close", "Connect", "LocalRace"} -> {s \in want : s[1] # last'[2]}
                       [] OTHER -> want
 GNext == Next /\ WantNext
 GSpec == GInit /\ [][GNext]_<<vars, want>>
 
-Expected(c) == IF /\ last'[1] \in {"Local", "Remote", "LocalRace"}
+Expected(c) == IF /\ last'[1] \in {"Local", "Remote", "LocalRace", "RemoteSub", "RemoteUnsub"}
                   /\ last'[4] # val[last'[3]]
                   /\ c \in open /\ c # last'[2] /\ <<c, last'[3]>> \in want
                THEN {<<last'[3], last'[4]>>} ELSE {}
 ExactlyOnceStep == (\A c \in Conn : got'[c] = Expected(c)) /\ ~dup' /\ ~appPanic'
 ExactlyOnceRule == [][ExactlyOnceStep]_<<vars, want>>
 View == <<open, subs, val, want>>
+
 =======================================================================
